@@ -76,6 +76,10 @@ pub enum Act {
   Ep(usize),
   Early(usize, Vec<Item>),
   Sleep(u64),
+  /// Somebody else on the host already uses the well-known user-traffic unicast port of participant id `id` in this
+  /// domain (RTPS 9.6.2.3: PB + DG * domain + d3 + PG * id) when the next participant is created: that participant
+  /// then listens for user traffic at some other port. The socket is held until the scenario ends.
+  OccupyUserPort(u16),
 }
 
 #[derive(Clone, Debug, Serialize, Deserialize)]
@@ -232,7 +236,7 @@ pub fn gen_scenario(rng: &mut Rng) -> Sc7 {
         Act::Topic(p) | Act::PubSub(p) => done_part[*p],
         Act::Ep(e) => done_topic[eps[*e].part] && done_ps[eps[*e].part],
         Act::Early(e, _) => done_ep[*e],
-        Act::Sleep(_) => true,
+        Act::Sleep(_) | Act::OccupyUserPort(_) => true,
       })
       .collect();
     let pick = ready[rng.below(ready.len() as u64) as usize];
@@ -831,6 +835,8 @@ pub fn run_scenario_sec(sc: &Sc7, sec: Option<(String, std::path::PathBuf)>, dom
     }};
   }
 
+  // sockets held for Act::OccupyUserPort
+  let mut occupied: Vec<std::net::UdpSocket> = vec![];
   // ---- A: creation
   if sc.loss_disc_ppm > 0 {
     net::set_policy_lossy(fnv64(format!("{tag}").as_bytes()), sc.loss_disc_ppm);
@@ -859,6 +865,17 @@ pub fn run_scenario_sec(sc: &Sc7, sec: Option<(String, std::path::PathBuf)>, dom
       Act::Sleep(ms) => {
         w.pump_for(*ms);
         Ok(())
+      }
+      Act::OccupyUserPort(id) => {
+        let port = 7400u32 + 250 * domain as u32 + 11 + 2 * *id as u32;
+        match std::net::UdpSocket::bind(("0.0.0.0", port as u16)) {
+          Ok(s) => {
+            occupied.push(s);
+            Ok(())
+          }
+          // already taken by somebody: that is the situation asked for
+          Err(_) => Ok(()),
+        }
       }
     };
     if let Err(e) = r {
